@@ -647,6 +647,12 @@ func (in *Interp) exec(fr *frame, ins ssa.Instruction) {
 		fnv, args := in.prepareCall(fr, &cc)
 		fr.defers = append(fr.defers, func() { in.invoke(fnv, args, &cc, nil) })
 	case *ssa.Go:
+		if _, ok := in.eng.cfg.Params["GOSTUB"]; ok {
+			// the goroutine is not executed (recorded; part of the claim's assumptions)
+			in.stub("go statement: goroutine body not executed")
+			in.events = append(in.events, "go")
+			break
+		}
 		in.unsupported("go statement")
 	case *ssa.Select:
 		in.unsupported("select")
@@ -693,6 +699,13 @@ func (in *Interp) unop(fr *frame, x *ssa.UnOp) Value {
 	case token.XOR:
 		return ts.BvNot(v.(*Term))
 	case token.ARROW:
+		if _, ok := in.eng.cfg.Params["GOSTUB"]; ok {
+			in.stub("channel receive: returns the zero value immediately (timers/goroutines are not modelled)")
+			if x.CommaOk {
+				return TupleV{in.zero(x.Type().(*types.Tuple).At(0).Type()), in.ts.Bool(true)}
+			}
+			return in.zero(x.Type())
+		}
 		in.unsupported("channel receive")
 	}
 	in.unsupported("unop " + x.Op.String())
